@@ -10,6 +10,7 @@ Lines (the same translation units serve C13 and C14; only the table name differs
     sc  sc(T,E,R) <len> <rep>     => <ec>:<ptr>:<buffer>     cnl::to_chars on scaled_integer<T, power<E,R>>
     cap <type>                    => <n>                     to_chars_capacity<type>{}()
     fix <type> <v>                => <length>:<array>|<to_string>|<operator<<>|<ec>:<ptr>:<buffer at capacity>
+    fixb <T> <base> <v>           => <length>:<array>                                   to_chars_static<base>(v)
 
 `<ec>` is `ok` or `big` (value_too_large), `<ptr>` the offset of the returned pointer from `first`
 (`null` for a null pointer), `<buffer>` the bytes of 4 guard cells, the `len` cells and 4 guard cells
@@ -147,6 +148,17 @@ def evalCharconv (toks : List String) : Option (String × String × String) :=
       let tx := scaledStaticText T e x v
       some (tcShowFix (scaledCapacity T e x) tx (scaledToChars T e x (scaledCapacity T e x).toNat v),
         if tcIsMostNegMsgT tx then "most_negative_integer" else "", "fix/sc")
+  | ["fixb", t, base, v] => do
+    let T ← parseIntTy t; let base ← base.toNat?; let v ← v.toInt?
+    let tx := intStaticTextBase T base v
+    let m := match tx with
+      | .ok txt =>
+        let arr := txt ++ List.replicate (intCapacity T + 1 - txt.length) (Char.ofNat 0)
+        toString txt.length ++ ":" ++ tcEncChars arr
+      | o => showRes (fun _ => "") o
+    let tag := if tcIsMostNegMsgT tx then "most_negative_integer"
+      else if (intText base v).length > intCapacity T then "static_capacity_ignores_base" else ""
+    some (m, tag, "fixb/" ++ (if tx.isOk then "ok" else "assert"))
   | _ => none
 
 def checkC13 (toks : List String) (res : String) : Option Verdict := do
@@ -160,6 +172,12 @@ def checkC13 (toks : List String) (res : String) : Option Verdict := do
     let len ← len.toNat?
     some { model := m, spec := some (c13Contract len res), cls := cls, branch := br, nontrivial := len > 0 }
   | ["cap", _] => some { model := m, spec := none, branch := br, nontrivial := false }
+  | ["fixb", _, _, _] =>
+    -- to_chars_static<Base> succeeds for every value: `<length>:<array>` with a positive length
+    let good := match res.splitOn ":" with
+      | n :: _ :: _ => (n.toNat?.getD 0) > 0
+      | _ => false
+    some { model := m, spec := some good, cls := cls, branch := br }
   | ["fix", _, _] =>
     -- the fixed-capacity variants succeed for every value: four fields, the last an `ok` result inside its buffer
     let good := match res.splitOn "|" with
